@@ -23,6 +23,8 @@ def check(chk, fx):
     cexrules.buf(chk, fx)
     from .. import ownrules
     ownrules.bufref(chk, fx, 6)
+    from .. import primrules
+    primrules.prims(chk, fx, "BUFIT", "CVEC2")
     cexrules.stacksel(chk, fx)
     caprules.cap_k(chk, fx)
     caprules.cap_s(chk, fx)
